@@ -28,6 +28,7 @@ import (
 
 	"verif/harness/h"
 	"verif/harness/keys"
+	"verif/harness/env"
 	"verif/harness/pol"
 	"verif/harness/sel"
 	"verif/harness/val"
@@ -54,7 +55,15 @@ type Link struct {
 	ExpMs     *int64     `json:"exp_ms,omitempty"`
 	EncMeta   []EncKV    `json:"enc_meta,omitempty"`
 	OptPerm   int        `json:"opt_perm,omitempty"` // != 0: constructor options handed over in another order
+	// RawCmd != "": the delegation travels with THIS text in its cmd field - signed by hand by its issuer, since
+	// no constructor produces a command that is not one - and is what the loader got from a decoder. If the
+	// decoder refuses it, the case does not exist (ErrUndecodable); if it lets it through, the delegation grants
+	// nothing: a text that is not a command covers no command and is covered by none.
+	RawCmd *string `json:"raw_cmd,omitempty"`
 }
+
+// ErrUndecodable: a hand-sealed token of the case is refused by the decoder (that is the decoder's job).
+var ErrUndecodable = errors.New("verif: hand-sealed token refused by the decoder")
 
 func permuteOpts[T any](opts []T, seed int) {
 	if seed == 0 {
@@ -372,6 +381,29 @@ func BuildLinkWith(l Link, prebuilt policy.Policy) (*delegation.Token, cid.Cid, 
 	data, c, err := tkn.ToSealed(Prin(l.Iss).Priv)
 	if err != nil {
 		return nil, cid.Undef, nil, fmt.Errorf("ToSealed: %w", err)
+	}
+	if l.RawCmd != nil {
+		e, perr := env.Parse(data)
+		if perr != nil {
+			return nil, cid.Undef, nil, fmt.Errorf("harness cannot parse its own token: %w", perr)
+		}
+		pv := val.FromNode(e.Payload)
+		np := val.V{K: "map"}
+		for _, kv := range pv.M {
+			if kv.K == "cmd" {
+				kv.V = val.Str(*l.RawCmd)
+			}
+			np.M = append(np.M, kv)
+		}
+		raw, serr := env.SignPayload(Prin(l.Iss).Priv, e.Tag, np.Node())
+		if serr != nil {
+			return nil, cid.Undef, nil, fmt.Errorf("hand-sealing: %w", serr)
+		}
+		d, c2, derr := delegation.FromSealed(raw)
+		if derr != nil {
+			return nil, cid.Undef, nil, fmt.Errorf("%w: %v", ErrUndecodable, derr)
+		}
+		return d, c2, raw, nil
 	}
 	if l.Decoded {
 		d, c2, err := delegation.FromSealed(data)
@@ -718,6 +750,11 @@ func Eval(c Case) Rules {
 	for i := 0; i+1 < n; i++ {
 		if !Covers(c.Links[i+1].Cmd, c.Links[i].Cmd) {
 			r.R[7] = false
+		}
+	}
+	for _, l := range c.Links {
+		if l.RawCmd != nil {
+			r.R[7] = false // not a command: covers nothing, is covered by nothing
 		}
 	}
 	eff := c.Inv.Args
